@@ -81,6 +81,16 @@ func cloneCtrl(c *bsdiff.Control) *bsdiff.Control {
 // diffSeries runs the real bsdiff differ and returns copies of its control messages.
 func diffSeries(old, neu []byte, partitions, concurrency int) ([]*bsdiff.Control, error) {
 	dctx := &bsdiff.DiffContext{Partitions: partitions, SuffixSortConcurrency: concurrency}
+	if rt.HasParam("reuse") {
+		// the context was used before, for a larger pair (the optimizer diffs file after file with one context):
+		// its buffers and suffix array are reused
+		prevOld, prevNew := make([]byte, len(old)+rt.Param("reuse")), make([]byte, len(neu)+rt.Param("reuse"))
+		for i := range prevOld {
+			prevOld[i] = byte(i*13 + 5)
+		}
+		copy(prevNew, prevOld[1:])
+		hlib.Must(dctx.Do(bytes.NewReader(prevOld), bytes.NewReader(prevNew), func(m proto.Message) error { return nil }, hlib.Consumer), "previous use of the context")
+	}
 	var msgs []*bsdiff.Control
 	err := dctx.Do(bytes.NewReader(old), bytes.NewReader(neu), func(m proto.Message) error {
 		msgs = append(msgs, cloneCtrl(m.(*bsdiff.Control)))
